@@ -24,6 +24,9 @@ CHECKS = {
  "C06": ("proptest-generated request sequences × segmentations of their concatenated bytes; metamorphic oracle: response stream = that of the canonical segmentation; scripted AsyncRead and FIONREAD-paced socketpair through the real Session::manage",
          "Exploration of schedules of the byte stream (cut points biased to grammar borders and buffer borders, coalesced request borders). Right level: the variable the property quantifies over is the segmentation, which the harness owns completely.",
          "heads below 1 KiB; deviations are classified by the segmentation alone (coalesced / head-split / body-or-border); coalesced requests are a recorded known finding", "DESIGN.md §7 C06"),
+ "C07": ("proptest-generated requests against a compiled catalogue of 46 typed handler signatures; oracle = Rust FromStr over the canonical integer grammar after independent percent-decoding, value equality against reference encoders (serde_json, own urlencoded/multipart encoders), run/not-run accounting",
+         "Exploration of inputs × handler signatures: 400 000 (quick) requests over a segment grammar built around integer boundaries and encodings, and body/Content-Type combinations. Right level: the extractors are pure functions of the request with exact oracles.",
+         "`+5` either; media type matching as documented (prefix); C09/C10 check the codecs themselves in depth", "DESIGN.md §7 C07"),
  "C14": ("proptest-generated CORS policies × application trees × simple/preflight requests; oracle = reference CORS model derived from the statement, fed with the policy and the flattened route table",
          "Exploration of policies × configurations × requests through the real CORS fang, automatic OPTIONS handlers, router and serializer. Right level: the property fails through interactions of registration shape (methods split over items/mounts) with preflights, which need generated configurations.",
          "policy on the root application; HEAD/OPTIONS as requested method accept either outcome; Vary unchecked", "DESIGN.md §7 C14"),
